@@ -6,7 +6,7 @@ import random
 from core import vloop
 from e2e import common, runner, scenario, upstream
 
-EXPECTED = []
+EXPECTED = ["C01_exit0_all_stages_clean", "C01_clean_stage_all_obtained", "C01_clean_stage_sizes"]
 LEVEL = "proof"
 RULE = ("scenario = 1-2 random upstream repositories (1-2 codenames, 1-3 components incl. nested, 1-3 architectures, "
         "Packages/Sources/Translation/Contents/dep11/cnf indices in 1-4 compressions, by-hash on/off, 1-3 release flavours) "
@@ -61,6 +61,7 @@ def run_one(chk, sseed, cls):
                     if cls == "local-dir":
                         sig = "exit0-fsck-dirty:local-oserror"
                     chk.violation(sig, replay, f"exit 0 but fsck of {repo['url']}: {probs[0]}")
+        common.correspondence(chk, res, replay, publish=False)
         key = None
         if res.exit == 0 and cls != "none":
             kinds = tuple(sorted({f for pl in plans.values() for _, _, f in pl}))
